@@ -16,9 +16,36 @@ import exact
 
 PLAIN = ("pyint", "pyfloat", "npint", "npfloat", "npfloat32", "arr0", "arrn", "arrint")
 COMPLEX = ("pycomplex", "npcomplex", "arrcomplex")
-DIMLESS = ("dimless", "dimlessarr")
+DIMLESS = ("dimless", "dimlessarr", "dimscaled", "dimscaledarr")
 CYCLE = ("cycleq", "cycleqarr", "angle", "phase", "phasearr")
-ARRAY_KINDS = ("arrn", "arrint", "arrcomplex", "dimlessarr", "cycleqarr", "phasearr")
+ARRAY_KINDS = ("arrn", "arrint", "arrcomplex", "dimlessarr", "dimscaledarr", "cycleqarr", "phasearr")
+
+
+class RealCodeRaised(Exception):
+    """The library (pulsarbat / astropy / NumPy dispatching into them) raised on
+    input the harness handed to a *public call*.  That is behaviour of the code
+    under test: it is recorded in an event and judged by TLC, never a machinery
+    error.  Everything raised outside `real()` is a bug of the harness itself."""
+
+    def __init__(self, exc):
+        super().__init__(repr(exc))
+        self.name = type(exc).__name__
+
+
+class ConstructFailed(Exception):
+    """A public call needed to *prepare* an operand raised; carries the event."""
+
+    def __init__(self, event):
+        super().__init__(event.get("exc") or event["res"]["exc"])
+        self.event = event
+
+
+def real(fn, *args, **kw):
+    """Every call into the library goes through here."""
+    try:
+        return fn(*args, **kw)
+    except Exception as e:  # noqa: recorded, judged by the specification
+        raise RealCodeRaised(e) from e
 
 
 def lib():
@@ -43,8 +70,9 @@ RAT0 = exact.rat(0)
 class Operand:
     """python object + its exact parts (arrays of float64) + imaginary flag."""
 
-    def __init__(self, obj, parts, im, kind):
+    def __init__(self, obj, parts, im, kind, scale=None):
         self.obj, self.parts, self.im, self.kind = obj, parts, im, kind
+        self.scale = scale          # exact Fraction: the operand denotes parts * scale (scaled units)
 
     @property
     def shape(self):
@@ -52,8 +80,10 @@ class Operand:
 
     def x(self, shape, idx):
         """The X record of element idx after broadcasting to shape."""
-        return {"k": self.kind, "im": bool(self.im),
-                "v": [exact.rat(float(np.broadcast_to(p, shape)[idx])) for p in self.parts]}
+        vals = [exact.frac(float(np.broadcast_to(p, shape)[idx])) for p in self.parts]
+        if self.scale is not None:
+            vals = [v * self.scale for v in vals]
+        return {"k": self.kind, "im": bool(self.im), "v": [exact.rat(v) for v in vals]}
 
 
 def phase_operand(p, kind="phase"):
@@ -62,7 +92,9 @@ def phase_operand(p, kind="phase"):
 
 
 def make_phase(ph):
-    """ph = {"i": [hex], "f": [hex], "im": bool, "shape": None | [dims]}"""
+    """ph = {"i": [hex], "f": [hex], "im": bool, "shape": None | [dims]}.
+    Built by the public constructor Phase(count, frac) (times 1j for an
+    imaginary phase); if that raises, the refusal becomes a new2 event."""
     u, Angle, Phase = lib()
     i = np.array([fh(x) for x in ph["i"]], dtype=float)
     f = np.array([fh(x) for x in ph["f"]], dtype=float)
@@ -70,9 +102,22 @@ def make_phase(ph):
         i, f = float(i[0]), float(f[0])
     else:
         i, f = i.reshape(ph["shape"]), f.reshape(ph["shape"])
-    if ph.get("im"):
-        return Phase(i * 1j, f * 1j)
-    return Phase(i, f)
+    im = bool(ph.get("im"))
+    try:
+        return real(Phase, i * 1j, f * 1j) if im else real(Phase, i, f)
+    except RealCodeRaised as e:
+        arr = ph.get("shape") is not None
+        kind = ("arrcomplex" if arr else "pycomplex") if im else ("arrn" if arr else "pyfloat")
+        first = (lambda a: float(np.asarray(a).reshape(-1)[0]))
+        raise ConstructFailed({"ev": "arith", "op": "new2", "ord": "po", "other": kind, "construct": True,
+                               "l": {"k": kind, "im": im, "v": [exact.rat(first(i))]},
+                               "r": {"k": kind, "im": im, "v": [exact.rat(first(f))]},
+                               "res": {"exc": e.name}}) from e
+
+
+SCALED_UNITS = {"percent": lambda u: (u.percent, exact.Fraction(1, 100)),
+                "km/m": lambda u: (u.km / u.m, exact.Fraction(1000)),
+                "m/mm": lambda u: (u.m / u.mm, exact.Fraction(1000))}
 
 
 def make_other(ot):
@@ -121,6 +166,12 @@ def make_other(ot):
     elif k == "dimlessarr":
         part = fl.reshape(shape)
         obj = (part * (1j if im else 1)) * u.dimensionless_unscaled
+    elif k in ("dimscaled", "dimscaledarr"):
+        # a dimensionless Quantity whose unit carries a scale: the number value * scale
+        unit, scale = SCALED_UNITS[ot["unit"]](u)
+        part = fl[0] if k == "dimscaled" else fl.reshape(shape)
+        obj = u.Quantity(part * (1j if im else 1), unit)
+        return Operand(obj, [np.asarray(part)], im, k, scale=scale)
     elif k == "cycleq":
         obj, part = (fl[0] * (1j if im else 1)) * u.cycle, fl[0]
     elif k == "cycleqarr":
@@ -162,10 +213,19 @@ def _idx(shape):
     return list(np.ndindex(*shape)) if shape else [()]
 
 
+UFUNCS = {"add": np.add, "sub": np.subtract, "mul": np.multiply, "div": np.divide,
+          "neg": np.negative, "abs": np.absolute, "pos": np.positive}
+IOPS = {"add": operator.iadd, "sub": operator.isub, "mul": operator.imul, "div": operator.itruediv}
+
+
 def run_arith(rc):
+    """form "op": out of place; "iop": in-place operator on the phase (p += x);
+    "out": the ufunc with out= a Phase target (real or imaginary, stale content).
+    For iop / out the *target object after the call* is the result that is judged."""
     u, Angle, Phase = lib()
     op = rc["op"]
     ord_ = rc.get("ord", "po")
+    form = rc.get("form", "op")
     if op in ("new1", "new2"):
         x = make_other(rc["x"])
         if op == "new1":
@@ -175,25 +235,43 @@ def run_arith(rc):
             ops, call = [x, y], (lambda: Phase(x.obj, y.obj))
             # "other" = the weaker of the two kinds (a Phase part is always allowed)
             other = y.kind if x.kind in ("phase", "phasearr") else x.kind
+        form = "op"
     elif op in ("neg", "abs", "pos"):
         p = phase_operand(make_phase(rc["ph"]))
         fn = {"neg": operator.neg, "pos": operator.pos,
               "abs": (np.abs if rc.get("np") else abs)}[op]
-        ops, call, other = [p], (lambda: fn(p.obj)), "phase"
+        ops, other, args = [p], "phase", [p.obj]
+        call = (lambda: fn(p.obj))
+        if form == "iop":
+            form = "out"
     else:
         p = phase_operand(make_phase(rc["ph"]))
         o = make_other(rc["ot"])
         fn = BINOPS[op]
-        if ord_ == "po":
-            ops, call = [p, o], (lambda: fn(p.obj, o.obj))
-        else:
-            ops, call = [o, p], (lambda: fn(o.obj, p.obj))
+        ops = [p, o] if ord_ == "po" else [o, p]
+        args = [x.obj for x in ops]
+        call = (lambda: fn(*args))
         other = o.kind
+        if op not in UFUNCS:
+            form = "op"
+    shape = np.broadcast_shapes(*[o.shape for o in ops])
+    if form == "iop" and (ord_ != "po" or tuple(shape) != tuple(p.shape)):
+        form = "out"                      # an in-place operator cannot grow its left operand
+    if form == "iop":
+        call = (lambda: IOPS[op](p.obj, o.obj))            # returns the (same) left operand
+    elif form == "out":
+        z = np.zeros(shape) + 0.25                         # stale content, of either kind
+        target = make_phase({"i": [hx(v) for v in z.reshape(-1)], "f": [hx(0.125)] * max(1, z.size),
+                             "im": bool(rc.get("tim")), "shape": list(shape) if shape else None})
+
+        def call():
+            UFUNCS[op](*args, out=target)
+            return target
     exc = None
     try:
-        r = call()
-    except Exception as e:  # noqa: the event records the refusal; TLC decides whether it is allowed
-        exc = exc_name(e)
+        r = real(call)
+    except RealCodeRaised as e:  # the event records the refusal; TLC decides whether it is allowed
+        exc = e.name
     shape = np.broadcast_shapes(*[o.shape for o in ops])
     evs = []
     divlike = op in ("floordiv", "mod", "divmod")
@@ -208,7 +286,7 @@ def run_arith(rc):
         else:
             qel, rel = None, res_elems(r, shape)
     for j, idx in enumerate(_idx(shape)):
-        ev = {"ev": "divmod" if divlike else "arith", "op": op, "ord": ord_, "other": other,
+        ev = {"ev": "divmod" if divlike else "arith", "op": op, "ord": ord_, "other": other, "form": form,
               "l": ops[0].x(shape, idx)}
         if len(ops) > 1:
             ev["r"] = ops[1].x(shape, idx)
@@ -234,26 +312,32 @@ def run_trig(rc):
     ns = [fh(n) for n in rc["ns"]]
     func = {"sin": np.sin, "cos": np.cos, "exp": np.exp}[fn]
 
-    def arg(p):
-        if fn != "exp":
-            return p
-        return (1j * p) if rc.get("left") else (p * 1j)
+    def value(p):
+        """func(p) resp. exp(i p) as complex array; both steps are public calls"""
+        a = p
+        if fn == "exp":
+            a = real(operator.mul, 1j, p) if rc.get("left") else real(operator.mul, p, 1j)
+        r = real(func, a)
+        return np.asarray(getattr(r, "value", r), dtype=complex)
+
+    def stored_frac(p):
+        return np.asarray(p.view(np.ndarray)["frac"], dtype=float)
 
     items = []
-    if rc.get("array"):
-        p = Phase(np.array(ns), np.full(len(ns), f))
-        out = np.asarray(func(arg(p)).value if hasattr(func(arg(p)), "value") else func(arg(p)))
-        fr = p.view(np.ndarray)["frac"]
-        for j in range(len(ns)):
-            z = complex(out[j])
-            items.append({"f": exact.rat(float(fr[j])), "re": exact.rat(z.real), "imv": exact.rat(z.imag)})
-    else:
-        for n in ns:
-            p = Phase(n, f)
-            r = func(arg(p))
-            z = complex(getattr(r, "value", r))
-            items.append({"f": exact.rat(float(p.view(np.ndarray)["frac"])),
-                          "re": exact.rat(z.real), "imv": exact.rat(z.imag)})
+    try:
+        if rc.get("array"):
+            p = make_phase({"i": [hx(n) for n in ns], "f": [hx(f)] * len(ns), "im": False, "shape": [len(ns)]})
+            out, fr = value(p), stored_frac(p)
+            for j in range(len(ns)):
+                items.append({"f": exact.rat(float(fr[j])), "re": exact.rat(float(out[j].real)),
+                              "imv": exact.rat(float(out[j].imag))})
+        else:
+            for n in ns:
+                p = make_phase({"i": [hx(n)], "f": [hx(f)], "im": False, "shape": None})
+                z = complex(value(p))
+                items.append({"f": exact.rat(float(stored_frac(p))), "re": exact.rat(z.real), "imv": exact.rat(z.imag)})
+    except RealCodeRaised as e:
+        return [{"ev": "trig", "fn": fn, "items": [], "exc": e.name}]
     return [{"ev": "trig", "fn": fn, "items": items}]
 
 
@@ -271,12 +355,12 @@ def run_cmp(rc):
     shape = np.broadcast_shapes(p.shape, o.shape)
     exc = None
     try:
-        r = fn(ops[0].obj, ops[1].obj)
+        r = real(fn, ops[0].obj, ops[1].obj)
         if r is NotImplemented or isinstance(r, bool) and shape:
             r = np.broadcast_to(r, shape)
         rr = np.broadcast_to(np.asarray(r, dtype=bool), shape).reshape(-1)
-    except Exception as e:  # noqa
-        exc = exc_name(e)
+    except RealCodeRaised as e:
+        exc = e.name
     evs = []
     for j, idx in enumerate(_idx(shape)):
         ev = {"ev": "cmp", "op": rc["op"], "ord": rc.get("ord", "po"), "other": o.kind,
@@ -307,11 +391,11 @@ def run_red(rc):
     exc = None
     try:
         if rc["form"] == "method":
-            r = getattr(p, fn)(axis=axis)
+            r = real(getattr(p, fn), axis=axis)
         else:
-            r = getattr(np, fn)(p, axis=axis)
-    except Exception as e:  # noqa
-        exc = exc_name(e)
+            r = real(getattr(np, fn), p, axis=axis)
+    except RealCodeRaised as e:
+        exc = e.name
     evs = []
     nl, n = li.shape
     for k in range(nl):
@@ -360,10 +444,10 @@ def run_from_string(rc):
 
     def one(arg, n):
         try:
-            r = Phase.from_string(arg)
-            return res_elems(r, np.shape(r))
-        except Exception as e:  # noqa
-            return [{"exc": exc_name(e)}] * n
+            r = real(Phase.from_string, arg)
+        except RealCodeRaised as e:
+            return [{"exc": e.name}] * n
+        return res_elems(r, np.shape(r))
 
     if "ss" not in rc:
         return [{"ev": "from_string", "s": _bytes(rc["s"]), "res": one(rc["s"], 1)[0]}]
@@ -387,9 +471,9 @@ def run_to_string(rc):
     p = make_phase(rc["ph"])
     ev = {"ev": "to_string", "p": _ph_rec(p), "prec": rc["prec"], "fmt": bool(rc.get("fmt"))}
     try:
-        ev["s"] = _bytes(_render(p, rc["prec"], rc.get("fmt")))
-    except Exception as e:  # noqa
-        ev["exc"] = exc_name(e)
+        ev["s"] = _bytes(real(_render, p, rc["prec"], rc.get("fmt")))
+    except RealCodeRaised as e:
+        ev["exc"] = e.name
     return [ev]
 
 
@@ -398,15 +482,15 @@ def run_roundtrip(rc):
     p = make_phase(rc["ph"])
     ev = {"ev": "roundtrip", "p": _ph_rec(p), "prec": rc["prec"]}
     try:
-        s = _render(p, rc["prec"], False)
+        s = real(_render, p, rc["prec"], False)
         ev["s"] = _bytes(s)
-    except Exception as e:  # noqa
-        ev["exc"] = exc_name(e)
+    except RealCodeRaised as e:
+        ev["exc"] = e.name
         return [ev]
     try:
-        ev["res"] = res_elems(Phase.from_string(s), ())[0]
-    except Exception as e:  # noqa
-        ev["res"] = {"exc": exc_name(e)}
+        ev["res"] = res_elems(real(Phase.from_string, s), ())[0]
+    except RealCodeRaised as e:
+        ev["res"] = {"exc": e.name}
     return [ev]
 
 
@@ -415,7 +499,15 @@ RUNNERS = {"arith": run_arith, "trig": run_trig, "cmp": run_cmp, "red": run_red,
 
 
 def execute(rc):
-    return RUNNERS[rc["ev"]](rc)
+    """Events of one recipe.  A library exception while an operand is being
+    prepared by public calls is itself an event (judged by TLC); any other
+    exception is a bug of the harness and propagates (machinery error)."""
+    try:
+        return RUNNERS[rc["ev"]](rc)
+    except ConstructFailed as c:
+        return [dict(c.event, stage=rc["ev"] + ":" + str(rc.get("op") or rc.get("fn") or ""))]
+    except RealCodeRaised as e:
+        return [{"ev": "construct", "stage": rc["ev"] + ":" + str(rc.get("op") or rc.get("fn") or ""), "exc": e.name}]
 
 
 # ------------------------------------------------------- recipes -> verdicts
@@ -474,7 +566,12 @@ def violation_key(ev, clauses):
         c += ":" + exc
     if k in ("arith", "divmod"):
         flags = _flag(ev["l"]) + (_flag(ev["r"]) if "r" in ev else "")
-        return "%s[%s]:%s:%s:%s" % (ev["op"], flags, ev["other"], ev["ord"], c)
+        if ev.get("construct"):
+            return "construct[%s]:%s:%s" % (flags, ev["other"], c)
+        form = ev.get("form", "op")
+        return "%s[%s]:%s:%s:%s" % (ev["op"], flags, ev["other"], ev["ord"] + ("" if form == "op" else "/" + form), c)
+    if k == "construct":
+        return "construct:%s:%s" % (ev.get("stage", ""), c)
     if k == "trig":
         return "%s:%s" % (ev["fn"], c)
     if k == "cmp":
@@ -506,8 +603,12 @@ def describe(ev, clauses):
     else:
         rs = ev.get("exc", res)
     if k in ("arith", "divmod", "cmp"):
-        s = "%s %s %s [%s operand: %s] -> %s" % (val(ev["l"]), ev["op"], val(ev["r"]) if "r" in ev else "",
-                                                  ev["ord"], ev["other"], rs)
+        s = "%s %s %s [%s operand: %s%s] -> %s" % (val(ev["l"]), ev["op"], val(ev["r"]) if "r" in ev else "",
+                                                    ev["ord"], ev["other"],
+                                                    {"iop": ", in-place operator", "out": ", out= Phase target"}.get(
+                                                        ev.get("form"), ""), rs)
+        if ev.get("construct"):
+            s = "while preparing operands for %s: Phase(%s, %s) -> %s" % (ev.get("stage"), val(ev["l"]), val(ev["r"]), rs)
         if "q" in ev:
             s += " q=%r" % float(exact.unrat(ev["q"]))
     elif k == "red":
@@ -521,8 +622,10 @@ def describe(ev, clauses):
                                             bytes(ev["s"]).decode() if "s" in ev else ev.get("exc"))
         if k == "roundtrip":
             s += " -> " + str(rs)
+    elif k == "construct":
+        s = "public call while preparing %s raised %s" % (ev.get("stage"), ev.get("exc"))
     else:
-        s = "%s %s" % (k, ev.get("fn", ""))
+        s = "%s %s%s" % (k, ev.get("fn", ""), (" raised " + ev["exc"]) if ev.get("exc") else "")
     return s + "; violated: " + ", ".join(clauses)
 
 
